@@ -137,6 +137,7 @@ type genOpts struct {
 	binary                      bool // arbitrary bytes in signatures / images (length-prefix framing only)
 	b64                         int  // percent of images given as base64 text (standard or URL-safe alphabet) with LengthImageData = decoded size
 	kind                        int  // 0: forward or return cash letters at random, 1: forward only, 2: return only
+	emptyCL                     bool // now and then a cash letter of record type "N": no bundles, credit items only
 	zones                       bool // date members carry a non-UTC zone and a time of day that crosses midnight in UTC
 	mutateP                     int  // percent of fields varied
 	sig7                        bool // digital signatures of arbitrary 7-bit bytes (NUL and control characters included, no line breaks): binary content that every encoding and framing can carry
@@ -189,6 +190,11 @@ func mutateRecord(r rng, goName string, rec any, p int) {
 			}
 		case 'D':
 			cand = FV{K: 'D', Y: 1993 + r.Intn(100), M: 1 + r.Intn(12), D: 1 + r.Intn(28)}
+			if r.Intn(4) == 0 {
+				// the days a hand-written calendar gets wrong: leap days (of a century year too), month ends
+				sp := [][3]int{{2000, 2, 29}, {2024, 2, 29}, {2400, 2, 29}, {1996, 2, 29}, {2016, 12, 31}, {1999, 1, 31}, {2023, 4, 30}, {2100, 2, 28}, {2019, 10, 31}, {2001, 3, 1}}[r.Intn(10)]
+				cand = FV{K: 'D', Y: sp[0], M: sp[1], D: sp[2]}
+			}
 		case 'T':
 			cand = FV{K: 'T', Y: r.Intn(24), M: r.Intn(60)}
 		default:
@@ -306,7 +312,8 @@ func genCheck(r rng, o genOpts) *icl.CheckDetail {
 	}
 	nA, nB, nC := r.Intn(3), r.Intn(2), r.Intn(3)
 	if r.Intn(12) == 0 {
-		nA, nC = 9, 4
+		// at the maximum of addenda A; addenda C beyond the maximum of any other addendum kind
+		nA, nC = 9, 4+r.Intn(10)
 	}
 	for i := 0; i < nA; i++ {
 		a := baseCheckDetailAddendumA()
@@ -361,6 +368,10 @@ func genReturn(r rng, o genOpts) *icl.ReturnDetail {
 		rd.EceInstitutionItemSequenceNumber = []string{"A0012X7", "RT-77/B", "K9", "00X1"}[r.Intn(4)]
 	}
 	nA, nB, nC, nD := r.Intn(3), r.Intn(2), r.Intn(2), r.Intn(3)
+	if r.Intn(12) == 0 {
+		// at the maximum of addenda A; addenda D beyond the maximum of any other addendum kind
+		nA, nD = 9, 4+r.Intn(10)
+	}
 	for i := 0; i < nA; i++ {
 		a := baseReturnDetailAddendumA()
 		mutateRecord(r, "ReturnDetailAddendumA", &a, o.mutateP)
@@ -429,6 +440,15 @@ func genFile(r rng, o genOpts) (*icl.File, error) {
 		clh.CashLetterID = fmt.Sprintf("CL%d%s", c, r.asciiStr(r.Intn(4), alnumChars))
 		cl := icl.NewCashLetter(clh)
 		nB := 1 + r.Intn(o.maxBundles)
+		empty := o.emptyCL && c > 0 && r.Intn(2) == 0
+		if empty {
+			// no electronic check records, no image records: the cash letter carries credit items only
+			clh.RecordTypeIndicator = "N"
+			nB = 0
+			ci := baseCreditItem()
+			mutateRecord(r, "CreditItem", ci, o.mutateP)
+			cl.AddCreditItem(ci)
+		}
 		for b := 0; b < nB; b++ {
 			bh := baseBundleHeader()
 			mutateRecord(r, "BundleHeader", bh, o.mutateP)
@@ -463,7 +483,26 @@ func genFile(r rng, o genOpts) (*icl.File, error) {
 				cl.AddRoutingNumberSummary(rns)
 			}
 		}
-		if err := cl.Create(); err != nil {
+		if empty {
+			// CashLetter.Create would total the (absent) items to zero, which the control record's own validation
+			// refuses: such a cash letter carries the control its sender prepared
+			// assembled as a literal, the way a sender without the library's constructors would
+			cl = icl.CashLetter{CashLetterHeader: clh, CreditItems: cl.CreditItems}
+			clc := icl.NewCashLetterControl()
+			clc.CashLetterBundleCount = 0
+			clc.CashLetterItemsCount = len(cl.CreditItems)
+			for _, ci := range cl.CreditItems {
+				clc.CashLetterTotalAmount += ci.ItemAmount
+			}
+			if clc.CashLetterTotalAmount == 0 {
+				cl.CreditItems[0].ItemAmount = 250000
+				clc.CashLetterTotalAmount = 250000
+			}
+			clc.ECEInstitutionName = "Wells Fargo"
+			clc.SettlementDate = clh.CashLetterBusinessDate
+			clc.CreditTotalIndicator = 1
+			cl.CashLetterControl = clc
+		} else if err := cl.Create(); err != nil {
 			return nil, fmt.Errorf("cash letter create: %w", err)
 		}
 		f.AddCashLetter(cl)
